@@ -3,9 +3,13 @@
    from the source tree (Gen/GenC20.v):
      gen_cf_axis_arith   utils/cf._load_cf_axis_info             delta / spacing / sign
      gen_cf_extent       utils/cf._get_area_extent_from_cf_axis  half-pixel extent reconstruction
-     gen_gdal_extent     utils/rasterio._get_area_def_from_gdal  geotransform -> extent (rasterio's .bounds is the same expression)
+     gen_geos_scale      utils/cf._convert_XY_CF_to_Proj         which keys are multiplied by the satellite height (loop unrolled)
+     gen_cf_areadef      utils/cf._load_cf_area_one_variable_areadef  width <- x.nb, height <- y.nb, extent <- (x, y)
+     gen_gdal_area       utils/rasterio._get_area_def_from_gdal  geotransform -> extent and (rows, cols) (rasterio's .bounds is the same expression)
+     gen_gdal_rotated / gen_rio_rotated                          the `not (b == d == 0)` refusal of rotated rasters
+     gen_rio_area        utils/rasterio._get_area_def_from_rasterio   (dataset.bounds, (dataset.height, dataset.width))
      gen_cartopy_bounds  geometry.AreaDefinition.to_cartopy_crs  bounds reordering
-     gen_geobox_affine   geometry.AreaDefinition.to_odc_geobox   Affine(psx, 0, extent[0], 0, -psy, extent[3])
+     gen_geobox          geometry.AreaDefinition.to_odc_geobox   Affine(psx, 0, extent[0], 0, -psy, extent[3]) and shape (height, width)
    What is hand-written here is the plumbing around them (which element of a coordinate vector is read, the loop of
    _convert_XY_CF_to_Proj, the unit conversion of the two extent corners in create_area_def, the affine transform of
    an area, affine application).  External engines are arguments, never axioms:
@@ -43,12 +47,11 @@ Section Convert.
 
   (* _convert_XY_CF_to_Proj for a geostationary grid mapping with angular coordinates:
      for k in ('first', 'last', 'spacing'): axis_info[k] *= satellite_height *)
-  Definition scale_axis (hgt : T) (x : cf_axis T) : cf_axis T :=
-    mk_axis (mul OP (ax_first x) hgt) (mul OP (ax_last x) hgt) (mul OP (ax_spacing x) hgt) (ax_nb x) (ax_sign x).
+  Definition scale_axis (hgt : T) (x : cf_axis T) : cf_axis T := gen_geos_scale OP x hgt.
 
   (* _load_cf_area_one_variable_areadef: shape = (y.nb, x.nb), extent generated *)
   Definition cf_area_of_axes (x y : cf_axis T) : area T :=
-    area_of_extent (gen_cf_extent OP x y) (ax_nb x) (ax_nb y).
+    let '(w, h, e) := gen_cf_areadef OP (mk_axes x y) in area_of_extent e w h.
 
   (* coordinates already in CRS units (metres for a metre CRS, degrees for a geographic one):
      create_area_def leaves the extent untouched *)
@@ -81,18 +84,24 @@ Section Convert.
     let '(a, b, c, d, e, f) := tr in
     (add OP (add OP (mul OP col a) (mul OP row b)) c, add OP (add OP (mul OP col d) (mul OP row e)) f).
 
-  Definition rotated (tr : affine6 T) : bool :=
-    let '(a, b, c, d, e, f) := tr in negb (eqb OP b d && eqb OP d zero).      (* not (b == d == 0) *)
+  Definition rotated (tr : affine6 T) : bool :=                     (* gdal branch *)
+    let '(a, b, c, d, e, f) := tr in gen_gdal_rotated OP b d.         (* not (b == d == 0) *)
+  Definition rotated_rio (tr : affine6 T) : bool :=                 (* rasterio branch *)
+    let '(a, b, c, d, e, f) := tr in gen_rio_rotated OP b d.
 
   (* _get_area_def_from_gdal / _get_area_def_from_rasterio (dataset.bounds): extent from transform + size *)
   Definition raster_load (tr : affine6 T) (w h : Z) : area T :=
     let '(a, b, c, d, e, f) := tr in
-    area_of_extent (gen_gdal_extent OP c a f e (mk_ds w h)) w h.
+    let '(ext, (rows, cols)) := gen_gdal_area OP c a f e (mk_ds w h) in
+    area_of_extent ext cols rows.
+  (* the rasterio branch takes the extent from dataset.bounds (computed by rasterio) and the shape from the dataset *)
+  Definition rio_load (ds : rio_ds T) : area T :=
+    let '(ext, (rows, cols)) := gen_rio_area ds in area_of_extent ext cols rows.
 
   (* ---------------------------------------------------------------- odc-geo *)
   (* to_odc_geobox: GeoBox(shape = (height, width), affine = Affine(psx, 0, extent[0], 0, -psy, extent[3])) *)
-  Definition geobox_affine (a : area T) : affine6 T := gen_geobox_affine OP a.
-  Definition geobox_shape (a : area T) : Z * Z := (height a, width a).
+  Definition geobox_affine (a : area T) : affine6 T := fst (gen_geobox OP a).
+  Definition geobox_shape (a : area T) : Z * Z := snd (gen_geobox OP a).
 
   (* ---------------------------------------------------------------- cartopy *)
   Definition cartopy_bounds (a : area T) : T * T * T * T := gen_cartopy_bounds a.
